@@ -678,6 +678,23 @@ func ReachableInstrs(f *ssa.Function, from ssa.Instruction, q PathQ) map[ssa.Ins
 	return out
 }
 
+// ReachableFromBlock returns every instruction on some path starting at the first instruction of blk.
+func ReachableFromBlock(f *ssa.Function, blk *ssa.BasicBlock, q PathQ) map[ssa.Instruction]bool {
+	out := map[ssa.Instruction]bool{}
+	if len(blk.Instrs) == 0 {
+		return out
+	}
+	first := blk.Instrs[0]
+	if q.BlockInstr != nil && q.BlockInstr(first) {
+		return out
+	}
+	out[first] = true
+	for in := range ReachableInstrs(f, first, q) {
+		out[in] = true
+	}
+	return out
+}
+
 // Dominated: every path from entry to target passes through an instruction satisfying by.
 func Dominated(f *ssa.Function, target ssa.Instruction, by func(ssa.Instruction) bool, q PathQ) bool {
 	q2 := q
@@ -760,3 +777,31 @@ func ssaString(in ssa.Instruction) string {
 	}
 	return in.String()
 }
+
+// Key is a canonical name for a value that identifies loads of the same field of the same object
+// (go/ssa has no CSE: `c.sig` loaded twice gives two values). It assumes the field is not rewritten between
+// the two loads; the who-may-write rules guard the fields this is used for.
+func (c *Ctx) Key(v ssa.Value) string {
+	v = c.Resolve(v)
+	switch x := v.(type) {
+	case *ssa.UnOp:
+		if x.Op == token.MUL {
+			if fa, ok := x.X.(*ssa.FieldAddr); ok {
+				_, fld := fieldOf(fa)
+				if fld != nil {
+					return "(" + c.Key(fa.X) + ")." + fld.Name()
+				}
+			}
+		}
+	case *ssa.Extract:
+		return fmt.Sprintf("%s#%d", c.Key(x.Tuple), x.Index)
+	}
+	if u, ok := v.(*ssa.UnOp); ok && u.Op == token.MUL {
+		if a, ok := c.addrRoot(u.X).(*ssa.Alloc); ok {
+			return fmt.Sprintf("*cell(%p)", a)
+		}
+	}
+	return fmt.Sprintf("%p", v)
+}
+
+func (c *Ctx) Same(a, b ssa.Value) bool { return c.Key(a) == c.Key(b) }
